@@ -79,10 +79,11 @@ def hearAlive (c : Cfg) (m : Msg) : Heard := notifHeard (listen {} true (notifyH
 def hearByebye (c : Cfg) (m : Msg) : Heard :=
   notifHeard (listen (listen {} true (notifyHeaders c ntsAlive m)).1 true (notifyHeaders c ntsByebye m)).2
 
-/-- the location test of `valid_search_headers` / `valid_advertisement_headers` on `Str` -/
+/-- the location test of `valid_search_headers` / `valid_advertisement_headers`
+    (`ssdp_listener.is_usable_location`): literally the merged listener model's `locUsable`, with
+    the scheme list and loopback names generated from `ssdp_listener.py`, applied to the text -/
 def validLocation (loc : Str) : Bool :=
-  startsWith loc "http".toList
-  && !(isInfix "://127.0.0.1".toList loc || isInfix "://[::1]".toList loc || isInfix "://169.254".toList loc)
+  C03.Parse.locUsable C03.genCfg.searchPrefix C03.genCfg.schemes C03.genCfg.loopbackNames (toS loc)
 
 /-- `udn_from_usn` on `Str` (shown equal to the C03 model's in `Lemmas/C13Listener.lean`) -/
 def udnFromUsn (usn : Str) : Option Str :=
